@@ -279,24 +279,24 @@ Definition loop_cond (s:state) : bool :=
   negb (match unatt s with [] => true | _ => false end)
   || has_met (idep s) || (has_unmet (idep s) && negb (refused s)) || has_met (fdep s).
 
-Fixpoint main_loop (fuel:nat) (ans:name -> option V) (s:state) : state + (err * istore) :=
+Fixpoint main_loop (fuel:nat) (ans:name -> option V) (s:state) : state + (err * state) :=
   match fuel with
-  | O => inr (EOutOfFuel, inp s)
+  | O => inr (EOutOfFuel, s)
   | S n =>
       if negb (loop_cond s) then inl s
       else
         match drain_queue fuel s with
-        | inr e => inr (e, inp s)
+        | inr e => inr (e, s)
         | inl s1 =>
             let (ws, t1) := drain (fdep s1) in
             match attempt_all (sort_rank ws) (set_fdep t1 s1) with
-            | inr e => inr (e, inp s1)
+            | inr e => inr (e, s1)
             | inl s2 =>
                 let s3 := if refused s2 then s2
                           else prompt_all ans (sort_rank (unmet_dependencies (idep s2))) s2 in
                 let (wi, t2) := drain (idep s3) in
                 match attempt_all wi (set_idep t2 s3) with
-                | inr e => inr (e, inp s3)
+                | inr e => inr (e, s3)
                 | inl s4 => main_loop n ans s4
                 end
             end
@@ -319,12 +319,12 @@ Fixpoint add_fields (l:list name) (s:state) : state + err :=
   end.
 
 Definition solve (fuel:nat) (form_names field_names:list name) (I:istore) (has_prompt:bool)
-           (ans:name -> option V) : state + (err * istore) :=
+           (ans:name -> option V) : state + (err * state) :=
   match add_forms form_names (init_state I has_prompt) with
-  | inr e => inr (e, I)
+  | inr e => inr (e, init_state I has_prompt)
   | inl s0 =>
       match add_fields field_names s0 with
-      | inr e => inr (e, I)
+      | inr e => inr (e, s0)
       | inl s1 =>
           let s2 := State (inp s1) (specs s1) (forms s1) (fmap s1) (vals s1) (unatt s1) (unimpl s1)
                           (add_names field_names (solving s1)) (fdep s1) (idep s1) (refused s1) (trace s1) (edges s1) in
@@ -356,9 +356,9 @@ Definition enc_err (e:err) : list Z :=
   | EUnsupportedForm f => [1; 0] | EAssertLine d => [2; 0] | ERecursion i => [3; 0]
   | EInvalidInput i => [4; zn i] | EKeyField f => [5; 0] | EBody c => [6; c] | EOutOfFuel => [7; 0]
   end%Z.
-Definition render (r:state + (err * istore)) : list Z :=
+Definition render (r:state + (err * state)) : list Z :=
   match r with
-  | inr (e, ii) => (0 :: enc_err e ++ enc_inp ii)%Z
+  | inr (e, sx) => (0 :: enc_err e ++ enc_inp (inp sx))%Z
   | inl s =>
       (1 :: (if solved s then 1 else 0)
          :: Z.of_nat (length (vals s)) :: flat_map (fun kv => [zn (fst kv); snd kv]) (vals s))
